@@ -114,13 +114,16 @@ class Sym:
                 # list building:  X.append(v) / X.extend(vs) / X.insert(0, v)
                 c = s.value
                 if isinstance(c, ast.Call) and isinstance(c.func, ast.Attribute) and isinstance(c.func.value, ast.Name) \
-                        and c.func.value.id in env and env[c.func.value.id][0] == "list" and c.args:
+                        and c.func.value.id in env and env[c.func.value.id][0] in ("list", "comp") and c.args \
+                        and c.func.attr in ("append", "extend"):
                     cur = env[c.func.value.id]
+                    if cur[0] == "comp":
+                        cur = ("list", (("splice", cur),))
                     if c.func.attr == "append":
-                        env[c.func.value.id] = ("list", cur[1] + (self.expr(c.args[0], env, depth),))
+                        env[c.func.value.id] = _norm_list(("list", cur[1] + (self.expr(c.args[0], env, depth),)))
                     elif c.func.attr == "extend":
                         v = self.expr(c.args[0], env, depth)
-                        env[c.func.value.id] = ("list", cur[1] + v[1]) if v[0] == "list" else ("list", cur[1] + (("splice", v),))
+                        env[c.func.value.id] = _norm_list(("list", cur[1] + v[1]) if v[0] == "list" else ("list", cur[1] + (("splice", v),)))
                 continue     # docstrings, other side-effect calls (not part of the value)
             if isinstance(s, (ast.Pass, ast.Import, ast.ImportFrom, ast.Assert, ast.Raise, ast.Global)):
                 if isinstance(s, ast.Raise):
@@ -195,6 +198,17 @@ class Sym:
                 accs = {}
                 simple = True
                 conds = {}
+                # append loop:  for v in L: X.append(f(v))   ==  X + [f(v) for v in L]
+                if len(s.body) == 1 and isinstance(s.body[0], ast.Expr) and isinstance(s.body[0].value, ast.Call) and not s.orelse:
+                    c = s.body[0].value
+                    if isinstance(c.func, ast.Attribute) and c.func.attr == "append" and isinstance(c.func.value, ast.Name) \
+                            and c.func.value.id in env and env[c.func.value.id][0] in ("list", "comp") and len(c.args) == 1:
+                        cur = env[c.func.value.id]
+                        if cur[0] == "comp":
+                            cur = ("list", (("splice", cur),))
+                        comp = ("comp", self.expr(c.args[0], e2, depth), bv, it, ())
+                        env[c.func.value.id] = _norm_list(("list", cur[1] + (("splice", comp),)))
+                        continue
                 for b in s.body:
                     if isinstance(b, ast.AugAssign) and isinstance(b.target, ast.Name) and isinstance(b.op, ast.Add):
                         accs.setdefault(b.target.id, []).append(self.expr(b.value, e2, depth))
@@ -234,7 +248,19 @@ class Sym:
                 if not self._run(list(s.body), env, depth, collect, guard):
                     return False
                 continue
-            if isinstance(s, (ast.FunctionDef, ast.ClassDef)):
+            if isinstance(s, ast.FunctionDef):
+                env2 = dict(env)
+                ps = [a.arg for a in s.args.args]
+                for p_ in ps:
+                    env2[p_] = ("bv", self._fresh())
+                rets_ = []
+                ok_ = self._run(list(s.body), env2, depth, rets_)
+                if ok_ and len(rets_) == 1:
+                    env[s.name] = ("fn", tuple(env2[p_] for p_ in ps), rets_[0][1])
+                else:
+                    env[s.name] = ("localfn", s.name)
+                continue
+            if isinstance(s, ast.ClassDef):
                 continue
             return False
         return True
@@ -262,10 +288,12 @@ class Sym:
 
     # ------------------------------------------------------------------ expressions
     def _binop(self, op, a, b):
-        if op == "+" and a[0] == "list" and b[0] == "list":
-            return ("list", a[1] + b[1])
+        if op == "+" and a[0] in ("list", "comp") and b[0] in ("list", "comp"):
+            la = a[1] if a[0] == "list" else (("splice", a),)
+            lb = b[1] if b[0] == "list" else (("splice", b),)
+            return _norm_list(("list", la + lb))
         if op == "+" and a[0] == "list":
-            return ("list", a[1] + (("splice", b),))
+            return _norm_list(("list", a[1] + (("splice", b),)))
         if op in COMMUTATIVE and _numeric(a) and _numeric(b) and (_strict_numeric(a) or _strict_numeric(b) or op != "+"):
             terms = []
             for x in (a, b):
@@ -307,6 +335,12 @@ class Sym:
             d = dotted(e)
             if d and d.startswith("self.") and d.count(".") == 1:
                 return ("self", e.attr)
+            if d and d.split(".")[0] in self.fi.module.imports and d.split(".")[0] not in env:
+                full = self._ext_name(d)
+                if not full.startswith("nptdms"):
+                    r = prog.resolve_expr(self.fi.module, e)
+                    if not r or r[0] == "ext":
+                        return ("ext", full)
             base = self.expr(e.value, env, depth)
             if base[0] == "class":
                 ci = prog.classes.get(base[1])
@@ -367,7 +401,11 @@ class Sym:
         if isinstance(e, ast.JoinedStr):
             return ("fstring", tuple(self.expr(v.value, env, depth) if isinstance(v, ast.FormattedValue) else ("const", v.value) for v in e.values))
         if isinstance(e, ast.Lambda):
-            return ("lambda", unparse(e))
+            env2 = dict(env)
+            ps = [a.arg for a in e.args.args]
+            for p_ in ps:
+                env2[p_] = ("bv", self._fresh())
+            return ("fn", tuple(env2[p_] for p_ in ps), self.expr(e.body, env2, depth))
         if isinstance(e, ast.Call):
             return self._call(e, env, depth)
         return ("expr", unparse(e))
@@ -402,6 +440,12 @@ class Sym:
             return args[0]
         if cn == "str" and len(args) == 1:
             return ("str", args[0])
+        # function of an imported external module:  np.piecewise(...), poly.polyval(...)
+        if isinstance(c.func, ast.Attribute) and cn:
+            head = cn.split(".")[0]
+            tgt = self.fi.module.imports.get(head)
+            if tgt and not tgt.startswith("nptdms") and head not in env:
+                return ("call", self._ext_name(cn), args, kws)
         # method call on a value
         if isinstance(c.func, ast.Attribute):
             recv_d = dotted(c.func.value)
@@ -436,7 +480,15 @@ class Sym:
                 return v
         if target is not None:
             return ("call", target.qual, args, kws)
-        return ("call", cn or unparse(c.func), args, kws)
+        return ("call", self._ext_name(cn) if cn else unparse(c.func), args, kws)
+
+    def _ext_name(self, d):
+        """dotted name with its first segment resolved through the module's imports (np -> numpy, poly -> numpy.polynomial.polynomial)"""
+        head, _, rest = d.partition(".")
+        tgt = self.fi.module.imports.get(head)
+        if tgt and not tgt.startswith("nptdms"):
+            return tgt + ("." + rest if rest else "")
+        return d
 
     def _inline(self, target, c, args, kws, depth, tcls):
         params = list(target.params)
@@ -455,6 +507,13 @@ class Sym:
         if v[0] == "opaque" or contains(v, lambda x: isinstance(x, tuple) and len(x) == 3 and x[0] == "loop"):
             return None
         return v
+
+
+def _norm_list(v):
+    """a list that is exactly one spliced comprehension is that comprehension"""
+    if v[0] == "list" and len(v[1]) == 1 and isinstance(v[1][0], tuple) and v[1][0] and v[1][0][0] == "splice":
+        return v[1][0][1]
+    return v
 
 
 def _strict_numeric(x):
@@ -536,3 +595,43 @@ def show(x, depth=0):
     if tag in ("call", "new"):
         return "%s(%s)" % (x[1], ", ".join([show(a) for a in x[2]] + ["%s=%s" % (k, show(v)) for k, v in x[3]]))
     return "%s(%s)" % (tag, ", ".join(show(y) for y in x[1:]))
+
+
+def eval_cond(c, oracle):
+    """Three-valued evaluation of a canonical condition; oracle(atom) -> True/False/None for atoms it knows."""
+    v = oracle(c)
+    if v is not None:
+        return v
+    if not isinstance(c, tuple) or not c:
+        return None
+    if c[0] == "not":
+        r = eval_cond(c[1], oracle)
+        return None if r is None else (not r)
+    if c[0] in ("and", "or"):
+        vals = [eval_cond(x, oracle) for x in c[1:]]
+        if c[0] == "and":
+            if any(v is False for v in vals):
+                return False
+            return True if all(v is True for v in vals) else None
+        if any(v is True for v in vals):
+            return True
+        return False if all(v is False for v in vals) else None
+    if c[0] == "cmp" and c[1] in ("is not", "!="):
+        r = oracle(("cmp", "is" if c[1] == "is not" else "==", c[2], c[3]))
+        return None if r is None else (not r)
+    if c[0] == "const":
+        return bool(c[1])
+    return None
+
+
+def select_path(paths, oracle):
+    """the unique path of function_paths() whose guards all hold under the oracle (None if not unique/undecidable)"""
+    hits = []
+    for guards, val, env in paths:
+        vals = [eval_cond(g, oracle) for g in guards]
+        if any(v is False for v in vals):
+            continue
+        if any(v is None for v in vals):
+            return None
+        hits.append((guards, val, env))
+    return hits[0] if len(hits) == 1 else None
